@@ -1,5 +1,5 @@
-import p_cards, p_eval, p_showdown, p_flop, p_scopes, p_sym, p_workers
+import p_cards, p_eval, p_showdown, p_flop, p_scopes, p_sym, p_workers, p_notation
 
 CHECKS = {}
-for m in (p_cards, p_eval, p_showdown, p_flop, p_scopes, p_sym, p_workers):
+for m in (p_cards, p_eval, p_showdown, p_flop, p_scopes, p_sym, p_workers, p_notation):
     CHECKS.update(m.CHECKS)
